@@ -190,10 +190,7 @@ def inquiry (d : PDict) : Except PyErr Bytes := do
 
 /-- one mode page of `ModeSense6/10.marshall_datain`; `none` body = `_mpd` unbound (UnboundLocalError,
     reported as a NameError-like failure: the library cannot marshal that page) -/
-def modePage (mp : PDict) (zero sub ea ctl ctl1 dr : Layout) : Except PyErr Bytes := do
-  let spf := truthy? (some (← match mp.get? "spf" with | some v => pure v | Option.none => .error .keyError))
-  let hdr ← if !spf then encodeFrom mp zero (zeros 2) else encodeFrom mp sub (zeros 4)
-  let pc ← getInt mp "page_code"
+def modePageBody (mp : PDict) (spf : Bool) (pc : Nat) (ea ctl ctl1 dr : Layout) : Except PyErr (Option Bytes) := do
   let body : Option Bytes := Option.none
   let body ← if pc = 0x1D then do pure (some (← encodeFrom mp ea (zeros 18))) else pure body
   let body ← if pc = 0x0A then
@@ -203,11 +200,31 @@ def modePage (mp : PDict) (zero sub ea ctl ctl1 dr : Layout) : Except PyErr Byte
          if sp = 1 then do pure (some (← encodeFrom mp ctl1 (zeros 28))) else pure body)
     else pure body
   let body ← if pc = 0x02 then (if !spf then do pure (some (← encodeFrom mp dr (zeros 14))) else pure body) else pure body
-  match body with
+  pure body
+
+/-- `_d[1] = len(_mpd)` / `_d[2:4] = scsi_int_to_ba(len(_mpd), 2)`, then `result += _d; result += _mpd` -/
+def modePageAssemble (spf : Bool) (hdr b : Bytes) : Except PyErr Bytes := do
+  let hdr ← if !spf then setByte hdr 1 b.length else pure (setSlice hdr 2 4 (intToBa b.length 2))
+  pure (hdr ++ b)
+
+/-- `mp["spf"]` (KeyError when absent) -/
+def modePageSpf (mp : PDict) : Except PyErr PV :=
+  match mp.get? "spf" with | some v => pure v | Option.none => .error .keyError
+
+/-- the page header: page_0 format (2 bytes) or sub_page format (4 bytes) -/
+def modePageHeader (mp : PDict) (spf : Bool) (zero sub : Layout) : Except PyErr Bytes :=
+  if !spf then encodeFrom mp zero (zeros 2) else encodeFrom mp sub (zeros 4)
+
+def modePageFinish (spf : Bool) (hdr : Bytes) : Option Bytes → Except PyErr Bytes
   | Option.none => .error .attributeError      -- UnboundLocalError: `_mpd` referenced before assignment
-  | some b =>
-    let hdr ← if !spf then setByte hdr 1 b.length else pure (setSlice hdr 2 4 (intToBa b.length 2))
-    pure (hdr ++ b)
+  | some b => modePageAssemble spf hdr b
+
+def modePage (mp : PDict) (zero sub ea ctl ctl1 dr : Layout) : Except PyErr Bytes := do
+  let sv ← modePageSpf mp
+  let hdr ← modePageHeader mp (truthy? (some sv)) zero sub
+  let pc ← getInt mp "page_code"
+  let body ← modePageBody mp (truthy? (some sv)) pc ea ctl ctl1 dr
+  modePageFinish (truthy? (some sv)) hdr body
 
 def modePages6 (d : PDict) : Except PyErr Bytes := do
   let mps ← getList d "mode_pages"
